@@ -222,7 +222,9 @@ func (sfd *StatusFileData) Save(filename string) error {
 		return err
 	}
 	verifStatusWrite(filename, -1, -1, sfd.State, sfd.StdoutSize)
+	verifCrashPoint("save.after_open_truncate")
 	err = sfd.saveToFile(file)
+	verifCrashPoint("save.after_write")
 	if err != nil {
 		serr := file.Close()
 
@@ -318,6 +320,7 @@ func (sfd *StatusFileData) UpdateFullStatus(filename string, statusFunc func(*St
 			return err
 		}
 	}
+	verifCrashPoint("update.after_load")
 	verifOldState, verifOldSize := sfd.State, sfd.StdoutSize
 	statusFunc(sfd)
 	verifStatusWrite(filename, verifOldState, verifOldSize, sfd.State, sfd.StdoutSize)
@@ -329,7 +332,9 @@ func (sfd *StatusFileData) UpdateFullStatus(filename string, statusFunc func(*St
 	if err != nil {
 		return err
 	}
+	verifCrashPoint("update.after_truncate")
 	err = sfd.saveToFile(file)
+	verifCrashPoint("update.after_write")
 	if err != nil {
 		return err
 	}
